@@ -1,7 +1,7 @@
 """Rules on the normal form of the pickle compiler (C06-C11, parts of C01/C15/C17)."""
 from __future__ import annotations
 
-from ..absint import new_interp, Interp, HList, HDict, NONE, const, is_const, fmt, fmt_seg, fmt_tree, mk_not
+from ..absint import new_interp, Interp, HList, HDict, NONE, const, is_const, fmt, fmt_seg, fmt_tree, mk_not, mk_cmp, mk_cond
 from ..common import AnalysisError, Report
 from ..facts import facts
 from .. import nf
@@ -108,7 +108,7 @@ class CompilerNF:
         return None, rest
 
     def _truthy_of(self, c, term) -> bool:
-        return c == term or c == ("cmp", "Gt", ("call", "len", (term,), ()), const(0)) or c == ("call", "len", (term,), ()) \
+        return c == term or c == mk_cmp("Gt", ("call", "len", (term,), ()), const(0)) or c == ("call", "len", (term,), ()) \
             or c == ("call", "bool", (term,), ())
 
     def _match_skeleton(self) -> None:
